@@ -178,11 +178,6 @@ public:
     return Length<NumericType>{this->value.y()};
   }
 
-  /// \brief Returns the z Cartesian component of this planar displacement vector.
-  [[nodiscard]] constexpr Length<NumericType> z() const noexcept {
-    return Length<NumericType>{this->value.z()};
-  }
-
   /// \brief Returns the magnitude of this planar displacement vector.
   [[nodiscard]] Length<NumericType> Magnitude() const {
     return Length<NumericType>{this->value.Magnitude()};
